@@ -262,3 +262,51 @@ func zzH_STRs() {
 		vReach("end")
 	})
 }
+
+// zzH_C11c: client side, default (queued) mode: N stream messages arrive one at a time (the
+// environment yields between them, so the frame reader, the decode worker and the stream delivery
+// worker interleave in every order) while pooled read buffers are recycled LIFO; what ReadMessage
+// hands to the application must be exactly what was pushed, in order.
+func zzH_C11c() {
+	N := vParam("c11c.N", 3)
+	vSetPoolReuse(true)
+	m := newZZMsgs(8)
+	m.out = make(chan []byte, 8)
+	conn := NewConnWithCodec(NewClientCodec(&zzBytesCodec{}, nil, m, 64))
+	sent := make([][]byte, N)
+	for i := range sent {
+		sent[i] = vBytesN("msg", 2)
+	}
+	var got [][]byte
+	vGo("reader", func() {
+		st, err := conn.NewStream("S.Watch")
+		if err != nil {
+			return
+		}
+		for i := 0; i < N; i++ {
+			var msg []byte
+			if st.ReadMessage(nil, &msg) != nil {
+				return
+			}
+			got = append(got, msg)
+		}
+	})
+	f := <-m.out
+	var open pbRequest
+	open.Unmarshal(f)
+	m.deliver(zzResponse(open.Seq, "", nil))
+	vQuiesce()
+	for i := 0; i < N; i++ {
+		m.deliver(zzResponse(open.Seq, "", sent[i]))
+		vYield()
+	}
+	vQuiesce()
+	m.fail(io.EOF)
+	vAtEnd(func() {
+		vAssert(len(got) == N, "all-messages-delivered")
+		for i := 0; i < len(got) && i < N; i++ {
+			vAssert(vEqBytes(got[i], sent[i]), "messages-in-order-unmodified")
+		}
+		vReach("end")
+	})
+}
